@@ -79,6 +79,12 @@ def analyse_listing(repo: Repo, run: Run, interp, name: str):
     # ---- R1 shape
     ok_src = (src.op == "call" and src.a[0].op == "attr" and src.a[0].a[1] == "parse"
               and src.a[0].a[0].op == "call" and src.a[0].a[0].a[0] == T("class", ("pykdebugparser.kd_buf_parser.KdBufParser",)))
+    if not ok_src and src.op == "call" and ((src.a[0].op == "attr" and src.a[0].a[0] == SELF and src.a[0].a[1] in ci.methods)
+                                            or src.a[0].op == "func"):
+        # the pipeline goes through a generator of the package that could not be brought to filter stages (a single-pass
+        # loop with several exits, inner loops ...): what it selects is not decided
+        raise AnalysisError(f"{name}: the listing goes through {sym.pretty(src.a[0])[:60]}(...), a stage that is not a filter/map "
+                            f"over the parser's stream in any recognised form")
     run.ob("R1", MOD, name, "source", ok_src,
            "" if ok_src else f"the listing is not built over KdBufParser(...).parse(stream): {sym.pretty(src)[:100]}",
            facts={"source": sym.pretty(src)[:160]}, line=fn.lineno)
